@@ -15,6 +15,7 @@ type frameLoc struct {
 	Root   string // reference term the location belongs to ("" = any)
 	Lo, Hi string // element range (absolute indices) for slice ranges, "" = whole array
 	Heap   bool
+	Except []string // with Heap: key prefixes that are NOT covered ("world except T, U")
 }
 
 // buildFrame evaluates the function's own modifies clause in the entry state.
@@ -32,6 +33,12 @@ func (x *Exec) buildFrame(st *State) {
 		switch {
 		case loc == "heap" || loc == "world":
 			st.frame = append(st.frame, frameLoc{Heap: true})
+		case strings.HasPrefix(loc, "world except "):
+			var ex []string
+			for _, p := range worldExcept(loc) {
+				ex = append(ex, x.typePrefix(p))
+			}
+			st.frame = append(st.frame, frameLoc{Heap: true, Except: ex})
 		case strings.HasPrefix(loc, "ghost "):
 			g := strings.TrimSpace(strings.TrimPrefix(loc, "ghost "))
 			root := ""
@@ -110,7 +117,29 @@ func (x *Exec) frameCheck(st *State, ins ssa.Instruction, key, root string, idx 
 	}
 	for _, f := range st.frame {
 		if f.Heap {
-			return
+			excepted := false
+			for _, p := range f.Except {
+				if key == "*" || key == p || strings.HasPrefix(key, p+".") || strings.HasPrefix(key, p+"#") {
+					excepted = true
+				}
+				if strings.HasPrefix(key, "*world:") {
+					// a callee that modifies the world except its own list: every prefix this function
+					// must leave alone has to be on the callee's list too
+					on := false
+					for _, q := range strings.Split(strings.TrimPrefix(key, "*world:"), ",") {
+						if q != "" && (q == p || strings.HasPrefix(p, q+".")) {
+							on = true
+						}
+					}
+					if !on {
+						excepted = true
+					}
+				}
+			}
+			if !excepted {
+				return
+			}
+			continue
 		}
 		match := key == f.Key || (f.Prefix && (strings.HasPrefix(key, f.Key+".") || strings.HasPrefix(key, f.Key+"#")))
 		if !match {
